@@ -404,6 +404,9 @@ fn core_grid(thorough: bool) -> Vec<Case> {
                                 o.text = cenc != 0;
                                 o.inband_cenc = inband_cenc;
                                 o.oti = Some(oti.clone());
+                                // a third of the grid without Content-MD5: nothing but the receiver's own
+                                // bookkeeping then stands between a mis-ordered block and "complete"
+                                o.md5 = (len + e as usize + parity as usize) % 3 != 0;
                                 let mut s = SessSpec::basic(OtiSpec::new(Scheme::NoCode, 1424, 64, 0, true));
                                 // default OTI of the session = the object's scheme half of the time (FDT itself under that scheme)
                                 if len % 2 == 0 && e >= 4 {
@@ -584,6 +587,7 @@ fn session_grid(thorough: bool) -> Vec<Case> {
                                                     o.count = count;
                                                     o.source = *source;
                                                     o.location = format!("file:///dir{}/obj{}.bin", j, j);
+                                                    o.md5 = (j + interleave as usize) % 2 == 0;
                                                     o.etag = if j == 1 { Some("etag-1".into()) } else { None };
                                                     o.groups = if j == 0 { Some(vec!["g0".into(), "g1".into()]) } else { None };
                                                     o.cache = match j {
